@@ -22,10 +22,11 @@ Bad(id, step, inv, ok) == IF ok THEN {} ELSE {[tr |-> id, step |-> step, inv |->
 ARunningMatchesDisk(e)   == ~e.err => (e.run = e.disk /\ e.runcrt = e.diskcrt)
 AFailureImpliesReload(e) == e.faulted => e.reloads > 0
 ANoNeedlessReload(e, c)  ==
-    (e.step > 0 /\ e.epsonly /\ ~e.faulted /\ ~e.err /\ c.cookie # "preserve" /\ e.fits) => e.reloads = 0
+    (e.step > 0 /\ e.epsonly /\ ~e.faulted /\ ~e.err /\ c.cookie # "preserve" /\ e.fits /\ ~c.static) => e.reloads = 0
 ANoopIsNoop(e)           == (e.step > 0 /\ e.same /\ e.epsonly /\ ~e.faulted) => e.reloads = 0
-ASlotsAfterReload(e)     ==
-    (e.reloads > 0 /\ ~e.err) =>
+(* dynamic-scaling=false: no empty slots are kept, every change of the endpoints reloads *)
+ASlotsAfterReload(e, c)  ==
+    (e.reloads > 0 /\ ~e.err /\ ~c.static) =>
         \A i \in 1..Len(e.slotinfo) :
             e.slotinfo[i].free >= e.minfree /\ e.slotinfo[i].total % BlockSzOf(e.block) = 0
 
@@ -34,7 +35,7 @@ JudgeA(e, c) ==
     Bad(e.tr, e.step, "FailureImpliesReload", AFailureImpliesReload(e)) \cup
     Bad(e.tr, e.step, "NoNeedlessReload", ANoNeedlessReload(e, c)) \cup
     Bad(e.tr, e.step, "NoopIsNoop", ANoopIsNoop(e)) \cup
-    Bad(e.tr, e.step, "SlotsAfterReload", ASlotsAfterReload(e))
+    Bad(e.tr, e.step, "SlotsAfterReload", ASlotsAfterReload(e, c))
 
 (* ---- layer B ---- *)
 SeqOfTuple(t) == [i \in 1..Len(t) |-> t[i]]
@@ -54,7 +55,7 @@ TraceNext ==
        /\ IF e.ev = "Reset"
           THEN /\ tr' = e.tr /\ cfgT' = e
                /\ prevSlots' = <<>> /\ isCommitted' = FALSE
-               /\ skip' = (e.naming # "" \/ e.cookie # "" \/ e.tls \/ e.auth # "")
+               /\ skip' = (e.naming # "" \/ e.cookie # "" \/ e.tls \/ e.auth # "" \/ e.static \/ e.passthru)
                /\ UNCHANGED <<bad, drift>>
           ELSE /\ bad' = bad \cup JudgeA(e, cfgT)
                /\ UNCHANGED <<tr, cfgT>>
@@ -71,7 +72,7 @@ TraceNext ==
 
 TraceInit ==
     /\ Init
-    /\ l = 1 /\ tr = "" /\ cfgT = [minfree |-> 0, block |-> 1, cookie |-> "", naming |-> "", tls |-> FALSE, auth |-> ""]
+    /\ l = 1 /\ tr = "" /\ cfgT = [minfree |-> 0, block |-> 1, cookie |-> "", naming |-> "", tls |-> FALSE, auth |-> "", static |-> FALSE, passthru |-> FALSE]
     /\ prevSlots = <<>> /\ isCommitted = FALSE /\ skip = FALSE /\ bad = {} /\ drift = {}
 
 TraceSpec == TraceInit /\ [][TraceNext]_tvars
